@@ -18,10 +18,11 @@ RULE = ("one Sqrt per program over a receiver and an operand: perfect squares r^
         "family), decimal exponents of both parities from -2^31 to 2^31-1, receiver precision below / equal to / above the "
         "operand's and 0, six rounding modes, +-0, +-Inf, negative operands, receiver aliased with the operand; "
         "distinct = different program text; non-trivial = finite positive operand")
-EXPLANATION = ("Props/C05.v proves the special-value table and that precision and mode of the receiver are the documented ones for "
-               "every input on which the model returns, and refutes correct rounding with a computed witness (K1); the run ties the "
-               "model (Newton iteration incl. the float64 seed, bit for bit) to the code and classifies every implementation result "
-               "with an independent integer-square oracle as correctly rounded / other neighbour (K1 shape) / worse")
+EXPLANATION = ("Props/C05.v proves the special-value table, that precision and mode of the receiver are the documented ones for "
+               "every input on which the model returns, and the exponent split (Newton iteration on a value in [0.01,10), halved "
+               "exponent re-attached); it refutes correct rounding with a computed witness (K1).  The run ties the model (Newton "
+               "iteration incl. the float64 seed, bit for bit) to the code and classifies every implementation result with an "
+               "independent integer-square oracle as correctly rounded / adjacent to the correctly rounded value (K1 shape) / worse")
 ASSUMPTIONS = ["operands well-formed (C08)", "natural-number routines exact (C06) and word kernels correct (C07)",
                "float64 division and math.Sqrt are IEEE-754 correctly rounded (amd64 SSE2)"]
 TRUSTED = ["L3/Bin.v: executable IEEE-754 binary64 division/sqrt/conversion used for the float64 seed of the Newton iteration"]
